@@ -4,6 +4,8 @@ import (
 	"fmt"
 	"math/rand/v2"
 	"regexp"
+	"sort"
+	"strconv"
 	"strings"
 
 	"github.com/onflow/cadence/common"
@@ -40,19 +42,48 @@ access(all) contract T {
         access(E) fun sec(): Int { return self.v }
     }
     access(all) resource R2 { access(all) let v: Int; init(_ v: Int) { self.v = v } }
+    access(all) let pad: String
+    init() {
+        var p = "xyzw"
+        while p.length < 2000 { p = p.concat(p) }
+        self.pad = p.slice(from: 0, upTo: 2000)
+    }
+    // large values: not inlined in the storage map (own slabs)
+    access(all) fun bigStr(_ n: Int): String { return "s".concat(n.toString()).concat(":").concat(self.pad) }
+    access(all) fun bigInts(_ n: Int): [Int] {
+        var a: [Int] = []
+        var i = 0
+        while i < 320 { a.append(n + i); i = i + 1 }
+        return a
+    }
+    access(all) fun bigDict(_ n: Int): {String: Int} {
+        var d: {String: Int} = {"k": n}
+        var i = 0
+        while i < 119 { d["e".concat(i.toString())] = i; i = i + 1 }
+        return d
+    }
     access(all) fun abort() { panic("ABORT") }
     access(all) fun mkR(_ v: Int): @R { return <- create R(v) }
     access(all) fun mkR2(_ v: Int): @R2 { return <- create R2(v) }
     access(all) fun show(_ x: AnyStruct): String {
         if let v = x as? Int { return "Int(".concat(v.toString()).concat(")") }
-        if let v = x as? String { return "String(".concat(v).concat(")") }
+        if let v = x as? String {
+            if v.length > 100 {
+                let parts = v.split(separator: ":")
+                return "String(big ".concat(parts[0]).concat(",").concat(v.length.toString()).concat(")")
+            }
+            return "String(".concat(v).concat(")")
+        }
         if let v = x as? [Int] {
+            if v.length > 8 {
+                return "[Int]big(".concat(v[0].toString()).concat(",").concat(v.length.toString()).concat(",").concat(v[v.length - 1].toString()).concat(")")
+            }
             var s = "[Int]("
             for e in v { s = s.concat(e.toString()).concat(",") }
             return s.concat(")")
         }
         if let v = x as? {String: Int} {
-            if v.length != 1 { return "{String:Int}(length ".concat(v.length.toString()).concat(")") }
+            if v.length != 1 { return "{String:Int}(length ".concat(v.length.toString()).concat(",k=").concat((v["k"] ?? -1).toString()).concat(")") }
             return "{String:Int}(k=".concat((v["k"] ?? -1).toString()).concat(")")
         }
         if let v = x as? S { return "S(".concat(v.v.toString()).concat(")") }
@@ -68,7 +99,7 @@ access(all) contract T {
 
 const (
 	c22Accounts = 3
-	c22Paths    = 6
+	c22Paths    = 24
 	c22NTypes   = 8
 )
 
@@ -80,19 +111,34 @@ var c22TypeID = [c22NTypes]string{"Int", "String", "[Int]", "{String:Int}",
 func c22IsRes(t int) bool { return t >= 6 }
 
 type mval struct {
-	T int
-	N int
+	T   int
+	N   int
+	Big bool // large variant (types String, [Int], {String: Int}): stored in its own slabs, never inlined
 }
+
+var c22Pad = strings.Repeat("xyzw", 500)
+
+const c22BigInts = 320
+const c22BigDictExtra = 119
 
 func (v mval) show() string {
 	switch v.T {
 	case 0:
 		return fmt.Sprintf("Int(%d)", v.N)
 	case 1:
+		if v.Big {
+			return fmt.Sprintf("String(big s%d,%d)", v.N, len(fmt.Sprintf("s%d:", v.N))+len(c22Pad))
+		}
 		return fmt.Sprintf("String(s%d)", v.N)
 	case 2:
+		if v.Big {
+			return fmt.Sprintf("[Int]big(%d,%d,%d)", v.N, c22BigInts, v.N+c22BigInts-1)
+		}
 		return fmt.Sprintf("[Int](%d,%d,)", v.N, v.N+1)
 	case 3:
+		if v.Big {
+			return fmt.Sprintf("{String:Int}(length %d,k=%d)", c22BigDictExtra+1, v.N)
+		}
 		return fmt.Sprintf("{String:Int}(k=%d)", v.N)
 	case 4:
 		return fmt.Sprintf("S(%d)", v.N)
@@ -110,10 +156,19 @@ func (v mval) literal() string {
 	case 0:
 		return fmt.Sprint(v.N)
 	case 1:
+		if v.Big {
+			return fmt.Sprintf("T.bigStr(%d)", v.N)
+		}
 		return fmt.Sprintf(`"s%d"`, v.N)
 	case 2:
+		if v.Big {
+			return fmt.Sprintf("T.bigInts(%d)", v.N)
+		}
 		return fmt.Sprintf("[%d, %d]", v.N, v.N+1)
 	case 3:
+		if v.Big {
+			return fmt.Sprintf("T.bigDict(%d)", v.N)
+		}
 		return fmt.Sprintf(`{"k": %d}`, v.N)
 	case 4:
 		return fmt.Sprintf("T.S(%d)", v.N)
@@ -131,10 +186,28 @@ func (v mval) auditString() string {
 	case 0:
 		return fmt.Sprint(v.N)
 	case 1:
+		if v.Big {
+			return fmt.Sprintf(`"s%d:%s"`, v.N, c22Pad)
+		}
 		return fmt.Sprintf(`"s%d"`, v.N)
 	case 2:
+		if v.Big {
+			parts := make([]string, c22BigInts)
+			for i := range parts {
+				parts[i] = strconv.Itoa(v.N + i)
+			}
+			return "[" + strings.Join(parts, ", ") + "]"
+		}
 		return fmt.Sprintf("[%d, %d]", v.N, v.N+1)
 	case 3:
+		if v.Big {
+			ents := []string{fmt.Sprintf(`"k": %d`, v.N)}
+			for i := 0; i < c22BigDictExtra; i++ {
+				ents = append(ents, fmt.Sprintf(`"e%d": %d`, i, i))
+			}
+			sort.Strings(ents) // the auditor sorts entries by the rendered key; `"e…"` < `"k"` and the key prefix decides
+			return "{" + strings.Join(ents, ", ") + "}"
+		}
 		return fmt.Sprintf(`{"k": %d}`, v.N)
 	}
 	return fmt.Sprintf("%s(v: %d)", c22TypeID[v.T], v.N)
@@ -181,15 +254,26 @@ type c22bref struct {
 	Want func(v mval) string // model's value of Expr
 }
 
-func wantN(v mval) string   { return fmt.Sprint(v.N) }
+func wantN(v mval) string { return fmt.Sprint(v.N) }
+func wantLen(v mval) string {
+	if v.Big {
+		return strconv.Itoa(c22BigInts)
+	}
+	return "2"
+}
 func wantRef(v mval) string { return "ref" }
 
 var c22Brefs = []c22bref{
 	{"&Int", set(0), `r.toString()`, wantN},
-	{"&String", set(1), `r.concat("")`, func(v mval) string { return fmt.Sprintf("s%d", v.N) }},
+	{"&String", set(1), `r.concat("")`, func(v mval) string {
+		if v.Big {
+			return fmt.Sprintf("s%d:%s", v.N, c22Pad)
+		}
+		return fmt.Sprintf("s%d", v.N)
+	}},
 	{"&[Int]", set(2), `r[0].toString()`, wantN},
-	{"auth(Mutate) &[Int]", set(2), `r.length.toString()`, func(mval) string { return "2" }},
-	{"&[AnyStruct]", set(2), `r.length.toString()`, func(mval) string { return "2" }},
+	{"auth(Mutate) &[Int]", set(2), `r.length.toString()`, wantLen},
+	{"&[AnyStruct]", set(2), `r.length.toString()`, wantLen},
 	{"&{String: Int}", set(3), `(r["k"] ?? -1).toString()`, wantN},
 	{"&T.S", set(4), `r.v.toString()`, wantN},
 	{"&T.S2", set(5), `r.v.toString()`, wantN},
@@ -211,6 +295,7 @@ type c22op struct {
 	S2    int
 	P2    int
 	K     int
+	Ps    []int // fill: paths saved to in one operation
 }
 
 type c22model struct {
@@ -230,6 +315,21 @@ func (m *c22model) clone() *c22model {
 	return n
 }
 
+func (m *c22model) bigCount(a int) int {
+	n := 0
+	for p := 0; p < c22Paths; p++ {
+		if v := m.st[a][p]; v != nil && v.Big {
+			n++
+		}
+	}
+	return n
+}
+
+// values written by a fill operation: a mix of small types
+func c22fillValue(base, i int) mval {
+	return mval{T: []int{0, 4, 2, 1, 5}[i%5], N: base + i}
+}
+
 func (m *c22model) occupied(a int) []int {
 	var ps []int
 	for p := 0; p < c22Paths; p++ {
@@ -242,13 +342,21 @@ func (m *c22model) occupied(a int) []int {
 
 // prediction of one operation
 type c22pred struct {
+	EnumBig  int // enumerations: number of large (non-inlined) values the account holds
+	EnumMany int // enumerations: number of occupied paths
 	Class string // narrow class for violation keys
 	Fail  bool
 	Exact string                  // expected log payload (when Check == nil)
 	Check func(got string) string // returns a problem or ""
 }
 
-func pathStr(p int) string { return fmt.Sprintf("/storage/p%d", p) }
+// paths 6.. have long identifiers so that a storage map with ~20 entries outgrows one slab
+func pathStr(p int) string {
+	if p >= 6 {
+		return fmt.Sprintf("/storage/p%d_a_rather_long_storage_path_identifier_to_fill_the_storage_map_slab", p)
+	}
+	return fmt.Sprintf("/storage/p%d", p)
+}
 
 // apply runs op on the model. accts maps signer index to account index.
 func (m *c22model) apply(op c22op, accts []int) c22pred {
@@ -259,6 +367,15 @@ func (m *c22model) apply(op c22op, accts []int) c22pred {
 		stored = c22TypeName[cur.T]
 	}
 	switch op.Kind {
+	case "fill":
+		for i, p := range op.Ps {
+			if m.st[a][p] != nil {
+				return c22pred{Class: "fill:onto=occupied", Fail: true}
+			}
+			v := c22fillValue(op.V.N, i)
+			m.st[a][p] = &v
+		}
+		return c22pred{Class: fmt.Sprintf("fill:n=%d", len(op.Ps)), Exact: "filled"}
 	case "save":
 		cls := fmt.Sprintf("save:%s:onto=%s", c22TypeName[op.V.T], stored)
 		if cur != nil {
@@ -318,7 +435,7 @@ func (m *c22model) apply(op c22op, accts []int) c22pred {
 		for _, p := range m.occupied(a) {
 			want = append(want, pathStr(p))
 		}
-		return c22pred{Class: fmt.Sprintf("storagePaths:n=%d", len(want)), Check: func(got string) string {
+		return c22pred{EnumBig: m.bigCount(a), EnumMany: len(want), Class: fmt.Sprintf("storagePaths:n=%d", len(want)), Check: func(got string) string {
 			g := splitList(got, ";")
 			if !sameMultiset(g, want) {
 				return fmt.Sprintf("storagePaths enumerated %v, occupied paths are %v", g, want)
@@ -336,7 +453,7 @@ func (m *c22model) apply(op c22op, accts []int) c22pred {
 		if k < n {
 			expectCount = k
 		}
-		return c22pred{Class: fmt.Sprintf("forEachStored:stop-after=%d:n=%d", k, n), Check: func(got string) string {
+		return c22pred{EnumBig: m.bigCount(a), EnumMany: n, Class: fmt.Sprintf("forEachStored:stop-after=%d:n=%d", k, n), Check: func(got string) string {
 			g := splitList(got, ";")
 			seen := map[string]bool{}
 			for _, e := range g {
@@ -372,6 +489,13 @@ func (op c22op) render(i int) string {
 	p := pathStr(op.P)
 	pre := fmt.Sprintf(`"%d|"`, i)
 	switch op.Kind {
+	case "fill":
+		var sb strings.Builder
+		for j, q := range op.Ps {
+			fmt.Fprintf(&sb, "%s.storage.save(%s, to: %s)\n        ", a, c22fillValue(op.V.N, j).literal(), pathStr(q))
+		}
+		fmt.Fprintf(&sb, "log(%s.concat(\"filled\"))", pre)
+		return sb.String()
 	case "save":
 		return fmt.Sprintf("%s.storage.save(%s, to: %s)\n        log(%s.concat(\"saved\"))", a, op.V.literal(), p, pre)
 	case "load":
@@ -466,21 +590,39 @@ func (t c22tx) signers() []common.Address {
 // genTx generates one transaction guided by (a clone of) the model so that most operations are meaningful.
 func c22genTx(r *rand.Rand, m *c22model, ctr *int) c22tx {
 	t := c22tx{AbortAt: -1}
+	first := r.IntN(c22Accounts)
+	// prefer, as first signer, an account holding large (non-inlined) values or many paths
+	var interesting []int
+	for a := 0; a < c22Accounts; a++ {
+		if m.bigCount(a) > 0 || len(m.occupied(a)) >= 12 {
+			interesting = append(interesting, a)
+		}
+	}
+	if len(interesting) > 0 && r.IntN(100) < 60 {
+		first = interesting[r.IntN(len(interesting))]
+	}
 	if r.IntN(2) == 0 {
-		t.Accts = []int{r.IntN(c22Accounts)}
+		t.Accts = []int{first}
 	} else {
-		a := r.IntN(c22Accounts)
-		b := (a + 1 + r.IntN(c22Accounts-1)) % c22Accounts
-		t.Accts = []int{a, b}
+		b := (first + 1 + r.IntN(c22Accounts-1)) % c22Accounts
+		t.Accts = []int{first, b}
 	}
 	nops := 1 + r.IntN(8)
 	sim := m.clone()
+	// often the FIRST operation of the transaction (fresh runtime, nothing loaded yet) is an enumeration
+	enumFirst := r.IntN(100) < 40
 	for len(t.Ops) < nops {
 		var op c22op
 		var after *c22model
 		var pred c22pred
 		for try := 0; try < 5; try++ {
 			op = c22genOp(r, sim, t.Accts, ctr)
+			if enumFirst && len(t.Ops) == 0 {
+				op = c22op{Kind: "paths"}
+				if r.IntN(2) == 0 {
+					op = c22op{Kind: "each", K: []int{1, 3, 100, 100}[r.IntN(4)]}
+				}
+			}
 			after = sim.clone()
 			pred = after.apply(op, t.Accts)
 			if !pred.Fail || r.IntN(100) < 30 {
@@ -503,7 +645,7 @@ func c22genTx(r *rand.Rand, m *c22model, ctr *int) c22tx {
 var c22kinds = []struct {
 	k string
 	w int
-}{{"save", 26}, {"load", 12}, {"move", 10}, {"copy", 10}, {"borrow", 13}, {"check", 10}, {"type", 6}, {"paths", 6}, {"each", 7}}
+}{{"save", 26}, {"load", 12}, {"move", 10}, {"copy", 10}, {"borrow", 13}, {"check", 10}, {"type", 6}, {"paths", 6}, {"each", 7}, {"fill", 7}}
 
 func c22genOp(r *rand.Rand, m *c22model, accts []int, ctr *int) c22op {
 	tot := 0
@@ -557,6 +699,27 @@ func c22genOp(r *rand.Rand, m *c22model, accts []int, ctr *int) c22op {
 		op.P = pickPath(false)
 		*ctr++
 		op.V = mval{T: r.IntN(c22NTypes), N: *ctr * 10}
+		if r.IntN(100) < 45 {
+			// large variant: own slabs, never inlined in the storage map
+			op.V.T = 1 + r.IntN(3)
+			op.V.Big = true
+		}
+	case "fill":
+		// save small values to many empty paths at once (grows the storage map past one slab)
+		var empty []int
+		for p := 0; p < c22Paths; p++ {
+			if m.st[a][p] == nil {
+				empty = append(empty, p)
+			}
+		}
+		n := 6 + r.IntN(14)
+		if n > len(empty) {
+			n = len(empty)
+		}
+		r.Shuffle(len(empty), func(i, j int) { empty[i], empty[j] = empty[j], empty[i] })
+		op.Ps = append([]int(nil), empty[:n]...)
+		*ctr += 30
+		op.V = mval{N: *ctr * 10}
 	case "load", "move":
 		op.P = pickPath(true)
 		op.T = pickT(m.st[a][op.P], true, true)
@@ -598,10 +761,10 @@ func c22genOp(r *rand.Rand, m *c22model, accts []int, ctr *int) c22op {
 	return op
 }
 
-const c22DumpScript = `import T from 0x9
+var c22DumpScript = strings.Replace(`import T from 0x9
 access(all) fun main() {
     let addrs: [Address] = [0x1, 0x2, 0x3]
-    let paths: [StoragePath] = [/storage/p0, /storage/p1, /storage/p2, /storage/p3, /storage/p4, /storage/p5]
+    let paths: [StoragePath] = [PATHS]
     for addr in addrs {
         let a = getAuthAccount<auth(Storage) &Account>(addr)
         for p in paths {
@@ -627,7 +790,15 @@ access(all) fun main() {
         for q in a.storage.storagePaths { s = s.concat(q.toString()).concat(";") }
         log(s)
     }
-}`
+}`, "PATHS", c22AllPaths(), 1)
+
+func c22AllPaths() string {
+	ps := make([]string, c22Paths)
+	for p := range ps {
+		ps[p] = pathStr(p)
+	}
+	return strings.Join(ps, ", ")
+}
 
 func (m *c22model) expectedDump() (lines []string, paths [][]string) {
 	for a := 0; a < c22Accounts; a++ {
@@ -653,7 +824,7 @@ func (m *c22model) expectedAudit() []string {
 	for a := 0; a < c22Accounts; a++ {
 		for p := 0; p < c22Paths; p++ {
 			if v := m.st[a][p]; v != nil {
-				out = append(out, fmt.Sprintf("0x%016x/storage/p%d = %s : %s", a+1, p, v.auditString(), c22TypeID[v.T]))
+				out = append(out, fmt.Sprintf("0x%016x%s = %s : %s", a+1, pathStr(p), v.auditString(), c22TypeID[v.T]))
 			}
 		}
 	}
@@ -688,9 +859,26 @@ func init() {
 			"check_true": 230, "check_false": 400, "paths_enumerations": 370, "foreach_early_stop": 330,
 			"final_dumps": 480, "mode_reuse_env": 80, "mode_fresh": 80, "supertype_hits": 600,
 			"audit_dump_compared": 480,
+			"enum_first_op": 700, "enum_first_op_account_with_large_values": 300, "enum_first_op_account_ge_20_paths": 80,
 		},
 		Run: c22Run,
 	})
+}
+
+// c22enumMonitors counts enumerations that are the first operation of a transaction (nothing loaded yet)
+// on accounts holding large values / enough paths for the storage map to span several slabs.
+func c22enumMonitors(c *core.Ctx, preds []c22pred, p c22pred) {
+	isFirst := len(preds) > 0 && preds[0].Class == p.Class && preds[0].EnumMany == p.EnumMany && preds[0].EnumBig == p.EnumBig
+	if !isFirst {
+		return
+	}
+	c.Inc("enum_first_op")
+	if p.EnumBig > 0 {
+		c.Inc("enum_first_op_account_with_large_values")
+	}
+	if p.EnumMany >= 20 {
+		c.Inc("enum_first_op_account_ge_20_paths")
+	}
 }
 
 func c22Run(c *core.Ctx) {
@@ -775,10 +963,12 @@ func c22Run(c *core.Ctx) {
 				c.Inc("check_false")
 			case strings.HasPrefix(p.Class, "storagePaths"):
 				c.Inc("paths_enumerations")
+				c22enumMonitors(c, st.preds, p)
 			case strings.HasPrefix(p.Class, "forEachStored"):
 				if !strings.Contains(p.Class, "stop-after=100") {
 					c.Inc("foreach_early_stop")
 				}
+				c22enumMonitors(c, st.preds, p)
 			case p.Check == nil:
 				c.Inc("result_value")
 				if strings.Contains(p.Class, "T=AnyStruct") || strings.Contains(p.Class, "T=@AnyResource") || strings.Contains(p.Class, "T={") ||
